@@ -4,18 +4,25 @@ import GdcVerif.Model.JlsHeader
 import GdcVerif.Model.J2kHeader
 /-! Driver ops of the C08/C09 parser models. -/
 namespace Drv.Parsers
-open Drv
+open Drv PC
 
 def sp (xs : List Nat) : String := " ".intercalate (xs.map toString)
+
+def resStr : Res → String
+  | .ok => "ok"
+  | .err => "err"
+  | .panic _ => "panic"
+  | .beyond => "beyond"
 
 /-- ops:
   `jm-readmarker hex`      → `ok <marker> <unread>` | `err`
   `jm-readsegment hex`     → `ok <payload length> <unread>` | `err`
-  `jm-build b0,…,b15 n`    → `ok` | `panic`        (HuffmanTable.Build with len(Values) = n)
-  `parse-sv1 hex`          → `ok w h comps precision` | `err` | `panic` | `scan`
-  `parse-bl-sosfirst hex`  → `err` | `panic` | `scan`
-  `parse-jls hex`          → `err` | `panic` | `scan`
-  `parse-j2k hex`          → `ok xsiz ysiz xosiz yosiz xtsiz ytsiz csiz levels layers nprec sqcd nspqcd ncom` | `err` | `panic` | `unmodelled`
+  `jm-build b0,…,b15 n`    → `ok` | `err` | `panic`   (HuffmanTable.Build with len(Values) = n)
+  `parse-sv1 hex`          → `ok w h comps precision` | `err` | `panic` | `beyond`
+  `parse-jll hex`          → `ok w h comps precision` | `err` | `panic` | `beyond`
+  `parse-bl hex`           → `err` | `panic` | `beyond`
+  `parse-jls hex`, `parse-jlsn hex` → `err` | `panic` | `beyond`
+  `parse-j2k hex`          → `ok xsiz ysiz xosiz yosiz xtsiz ytsiz csiz ncoc nqcc npoc nrgn ncom ntiles datalen | cod… | qcd…` | `err` | `panic` | `beyond`
 -/
 def step? : List String → Option String
   | ["jm-readmarker", hx] =>
@@ -31,38 +38,29 @@ def step? : List String → Option String
     | some bs, some n =>
       match JM.build (bs.map Int.toNat) n with
       | .ok () => "ok"
-      | .err => "err"
-      | .panic _ => "panic"
-      | .scan => "scan"
+      | .error e => resStr e
     | _, _ => "bad-op"
   | ["parse-sv1", hx] =>
-    some <| match (JM.sv1Decode (hexToBytes hx)).1 with
-    | .ok st => "ok " ++ sp [st.width, st.height, st.comps.length, st.precision]
-    | .err => "err"
-    | .panic _ => "panic"
-    | .scan => "scan"
-  | ["parse-bl-sosfirst", hx] =>
-    some <| match JM.blSosFirst (hexToBytes hx) with
-    | .ok () => "ok"
-    | .err => "err"
-    | .panic _ => "panic"
-    | .scan => "scan"
-  | ["parse-jls", hx] =>
-    some <| match (JlsH.header (hexToBytes hx)).1 with
-    | .ok () => "ok"
-    | .err => "err"
-    | .panic _ => "panic"
-    | .scan => "scan"
+    some <| match JM.sv1Decode (hexToBytes hx) with
+    | (st, .ok) => "ok " ++ sp [st.width, st.height, st.comps.length, st.precision]
+    | (_, r) => resStr r
+  | ["parse-jll", hx] =>
+    some <| match JM.jllDecode (hexToBytes hx) with
+    | (st, .ok) => "ok " ++ sp [st.width, st.height, st.comps, st.precision]
+    | (_, r) => resStr r
+  | ["parse-bl", hx] => some <| resStr (JM.blDecode (hexToBytes hx)).2
+  | ["parse-jls", hx] => some <| resStr (JlsH.header (hexToBytes hx)).2
+  | ["parse-jlsn", hx] => some <| resStr (JlsH.nheader (hexToBytes hx)).2
   | ["parse-j2k", hx] =>
     some <| match J2kH.parse (hexToBytes hx) with
-    | .ok h =>
-      match h.siz, h.cod, h.qcd with
+    | (st, .ok) =>
+      match st.siz, st.cod, st.qcd with
       | some s, some c, some q =>
-        "ok " ++ sp [s.xsiz, s.ysiz, s.xosiz, s.yosiz, s.xtsiz, s.ytsiz, s.csiz, c.levels, c.layers, c.nprec, q.1, q.2, h.ncom]
+        "ok " ++ sp [s.xsiz, s.ysiz, s.xosiz, s.yosiz, s.xtsiz, s.ytsiz, s.csiz, st.coc.length, st.qcc.length,
+                     st.npoc, st.nrgn, st.ncom, st.tiles.length, (st.tiles.map (·.dataLen)).foldl (· + ·) 0]
+          ++ " | " ++ sp c ++ " | " ++ sp q
       | _, _, _ => "bad-model"
-    | .err => "err"
-    | .panic _ => "panic"
-    | .unmodelled => "unmodelled"
+    | (_, r) => resStr r
   | _ => none
 
 end Drv.Parsers
